@@ -558,7 +558,7 @@ func (i SmallInt) CompareFloat(other Float) Value {
 	if other.IsNaN() {
 		return Nil
 	}
-	return SmallInt(i.ToFloat().Cmp(other)).ToValue()
+	return SmallInt(CompareInt64WithFloat64(int64(i), float64(other))).ToValue()
 }
 
 func (i SmallInt) CompareSmallInt(other SmallInt) SmallInt {
@@ -620,7 +620,7 @@ func (i SmallInt) GreaterThanSmallInt(other SmallInt) bool {
 }
 
 func (i SmallInt) GreaterThanFloat(other Float) bool {
-	return Float(i) > other
+	return CompareInt64WithFloat64(int64(i), float64(other)) == 1
 }
 
 func (i SmallInt) GreaterThanBigInt(other *BigInt) bool {
@@ -679,7 +679,8 @@ func (i SmallInt) GreaterThanEqualSmallInt(other SmallInt) bool {
 }
 
 func (i SmallInt) GreaterThanEqualFloat(other Float) bool {
-	return Float(i) >= other
+	c := CompareInt64WithFloat64(int64(i), float64(other))
+	return c == 1 || c == 0
 }
 
 func (i SmallInt) GreaterThanEqualBigInt(other *BigInt) bool {
@@ -738,7 +739,7 @@ func (i SmallInt) LessThanSmallInt(other SmallInt) bool {
 }
 
 func (i SmallInt) LessThanFloat(other Float) bool {
-	return Float(i) < other
+	return CompareInt64WithFloat64(int64(i), float64(other)) == -1
 }
 
 func (i SmallInt) LessThanBigInt(other *BigInt) bool {
@@ -797,7 +798,8 @@ func (i SmallInt) LessThanEqualSmallInt(other SmallInt) bool {
 }
 
 func (i SmallInt) LessThanEqualFloat(other Float) bool {
-	return Float(i) <= other
+	c := CompareInt64WithFloat64(int64(i), float64(other))
+	return c == -1 || c == 0
 }
 
 func (i SmallInt) LessThanEqualBigInt(other *BigInt) bool {
@@ -846,7 +848,7 @@ func (i SmallInt) LaxEqual(other Value) bool {
 	case SMALL_INT_FLAG:
 		return i == other.AsSmallInt()
 	case FLOAT_FLAG:
-		return Float(i) == other.AsFloat()
+		return CompareInt64WithFloat64(int64(i), float64(other.AsFloat())) == 0
 	case INT64_FLAG:
 		o := other.AsInlineInt64()
 		if o > MaxSmallInt {
@@ -878,9 +880,9 @@ func (i SmallInt) LaxEqual(other Value) bool {
 	case UINT8_FLAG:
 		return i == SmallInt(other.AsUInt8())
 	case FLOAT64_FLAG:
-		return Float64(i) == other.AsInlineFloat64()
+		return CompareInt64WithFloat64(int64(i), float64(other.AsInlineFloat64())) == 0
 	case FLOAT32_FLAG:
-		return Float32(i) == other.AsFloat32()
+		return CompareInt64WithFloat64(int64(i), float64(other.AsFloat32())) == 0
 	default:
 		return false
 	}
